@@ -4,26 +4,26 @@ import "time"
 
 // Spec is one explicit, replayable scenario. A run is a pure function of (Spec, code).
 type Spec struct {
-	Family   string     `json:"family"`
-	Seed     uint64     `json:"seed"`
-	Variant  string     `json:"variant,omitempty"` // human-readable label of the sampled cell
-	Hosts    []HostSpec `json:"hosts"`
-	Cfg      CfgSpec    `json:"cfg"`
-	World    WorldSpec  `json:"world"`
-	Rates    RateSpec   `json:"rates"`
-	Timeline []TLEvent  `json:"timeline"`
+	Family   string          `json:"family"`
+	Seed     uint64          `json:"seed"`
+	Variant  string          `json:"variant,omitempty"` // human-readable label of the sampled cell
+	Hosts    []HostSpec      `json:"hosts"`
+	Cfg      CfgSpec         `json:"cfg"`
+	World    WorldSpec       `json:"world"`
+	Rates    RateSpec        `json:"rates"`
+	Timeline []TLEvent       `json:"timeline"`
 	Explicit []ExplicitFault `json:"explicit,omitempty"`
 	StmtFail []StmtFail      `json:"stmt_fail,omitempty"`
 	CrashAt  *CrashAt        `json:"crash_at,omitempty"`
 	// ExplicitOnly: replay/shrink mode - per-call decisions come only from Explicit
-	ExplicitOnly bool  `json:"explicit_only,omitempty"`
-	DurationMs   int64 `json:"duration_ms"`
-	HealAtMs     int64 `json:"heal_at_ms"` // after this instant no fault is injected (rates off, timeline faults must be earlier)
-	LivenessMs   int64 `json:"liveness_ms"` // bound B after HealAt for convergence checks (0 = no liveness check)
-	Primary  []string  `json:"primary"`     // property ids judged by this run
-	Engine   string    `json:"engine,omitempty"` // "A" (cluster) or "B" (dcs clients only)
-	DCSOps   []DCSOp   `json:"dcs_ops,omitempty"` // engine B workload
-	Pilot    bool      `json:"pilot,omitempty"`
+	ExplicitOnly bool     `json:"explicit_only,omitempty"`
+	DurationMs   int64    `json:"duration_ms"`
+	HealAtMs     int64    `json:"heal_at_ms"`        // after this instant no fault is injected (rates off, timeline faults must be earlier)
+	LivenessMs   int64    `json:"liveness_ms"`       // bound B after HealAt for convergence checks (0 = no liveness check)
+	Primary      []string `json:"primary"`           // property ids judged by this run
+	Engine       string   `json:"engine,omitempty"`  // "A" (cluster) or "B" (dcs clients only)
+	DCSOps       []DCSOp  `json:"dcs_ops,omitempty"` // engine B workload
+	Pilot        bool     `json:"pilot,omitempty"`
 }
 
 type HostSpec struct {
@@ -33,83 +33,83 @@ type HostSpec struct {
 	Priority   int    `json:"priority,omitempty"`
 	NoDaemon   bool   `json:"no_daemon,omitempty"`
 	// initial server state overrides (repair grid etc.)
-	Init *InitState `json:"init,omitempty"`
-	StartDelayMs int64 `json:"start_delay_ms,omitempty"`
-	Cfg  map[string]string `json:"cfg,omitempty"` // per-host config overrides (yaml key -> value)
+	Init         *InitState        `json:"init,omitempty"`
+	StartDelayMs int64             `json:"start_delay_ms,omitempty"`
+	Cfg          map[string]string `json:"cfg,omitempty"` // per-host config overrides (yaml key -> value)
 }
 
 type InitState struct {
-	ReadOnly   *bool   `json:"ro,omitempty"`
-	Offline    *bool   `json:"offline,omitempty"`
-	Source     *string `json:"source,omitempty"` // "" = no channel (claims to be master)
-	IO         *bool   `json:"io,omitempty"`
-	SQL        *bool   `json:"sql,omitempty"`
-	IOErrno    int     `json:"io_errno,omitempty"`
-	SQLErrno   int     `json:"sql_errno,omitempty"`
-	SSMaster   *bool   `json:"ss_master,omitempty"`
-	SSSlave    *bool   `json:"ss_slave,omitempty"`
-	WaitCount  *int    `json:"wait_count,omitempty"`
-	ExtraTxns  int     `json:"extra_txns,omitempty"`  // errant transactions of its own uuid
-	BehindTxns int     `json:"behind_txns,omitempty"` // lacks the last k transactions of the master
-	Down       bool    `json:"down,omitempty"`
-	ApplyDelayMs int64 `json:"apply_delay_ms,omitempty"`
-	FlushLog   int     `json:"flush_log,omitempty"`
-	SyncBinlog int     `json:"sync_binlog,omitempty"`
-	DiskPct    int     `json:"disk_pct,omitempty"`
+	ReadOnly     *bool   `json:"ro,omitempty"`
+	Offline      *bool   `json:"offline,omitempty"`
+	Source       *string `json:"source,omitempty"` // "" = no channel (claims to be master)
+	IO           *bool   `json:"io,omitempty"`
+	SQL          *bool   `json:"sql,omitempty"`
+	IOErrno      int     `json:"io_errno,omitempty"`
+	SQLErrno     int     `json:"sql_errno,omitempty"`
+	SSMaster     *bool   `json:"ss_master,omitempty"`
+	SSSlave      *bool   `json:"ss_slave,omitempty"`
+	WaitCount    *int    `json:"wait_count,omitempty"`
+	ExtraTxns    int     `json:"extra_txns,omitempty"`  // errant transactions of its own uuid
+	BehindTxns   int     `json:"behind_txns,omitempty"` // lacks the last k transactions of the master
+	Down         bool    `json:"down,omitempty"`
+	ApplyDelayMs int64   `json:"apply_delay_ms,omitempty"`
+	FlushLog     int     `json:"flush_log,omitempty"`
+	SyncBinlog   int     `json:"sync_binlog,omitempty"`
+	DiskPct      int     `json:"disk_pct,omitempty"`
 }
 
 type CfgSpec struct {
-	TickMs             int64 `json:"tick_ms"`
-	HealthMs           int64 `json:"health_ms"`
-	RecoveryMs         int64 `json:"recovery_ms"`
-	SessionTimeoutMs   int64 `json:"session_timeout_ms"`
-	LockHeldTTLMs      int64 `json:"lock_held_ttl_ms"`
-	SemiSync           bool  `json:"semi_sync"`
-	Async              bool  `json:"async,omitempty"`
-	AsyncAllowedLagMs  int64 `json:"async_allowed_lag_ms,omitempty"`
-	WaitSlaveCount     int   `json:"wait_slave_count"`
-	Failover           bool  `json:"failover"`
-	FailoverDelayMs    int64 `json:"failover_delay_ms"`
-	FailoverCooldownMs int64 `json:"failover_cooldown_ms"`
-	InactivationDelayMs int64 `json:"inactivation_delay_ms"`
-	MasterFirstSSOrder bool  `json:"master_first_ss_order"`
-	ForceSwitchover    bool  `json:"force_switchover,omitempty"`
-	ManagerSwitchover  bool  `json:"manager_switchover,omitempty"`
-	ResetupCrashedHosts bool `json:"resetup_crashed_hosts,omitempty"`
-	DBTimeoutMs        int64 `json:"db_timeout_ms"`
-	DBLostCheckTimeoutMs int64 `json:"db_lost_check_timeout_ms"`
-	DBSetRoTimeoutMs   int64 `json:"db_set_ro_timeout_ms"`
-	DBSetRoForceTimeoutMs int64 `json:"db_set_ro_force_timeout_ms"`
-	SwitchoverTimeoutMs int64 `json:"switchover_timeout_ms"`
-	SwitchoverMaxAttempts int `json:"switchover_max_attempts"`
-	SlaveCatchUpTimeoutMs int64 `json:"slave_catch_up_timeout_ms"`
-	WaitReplStartMs    int64 `json:"wait_repl_start_ms"`
-	DisableSetROOnLost bool  `json:"disable_set_ro_on_lost,omitempty"`
-	DisableSSOnMaint   bool  `json:"disable_ss_on_maint"`
-	AggressiveRepair   bool  `json:"aggressive_repair,omitempty"`
-	RepairCooldownMs   int64 `json:"repair_cooldown_ms"`
-	RepairMaxAttempts  int   `json:"repair_max_attempts"`
-	SemiSyncEnableLag  int64 `json:"semi_sync_enable_lag"`
-	CriticalDisk       float64 `json:"critical_disk,omitempty"`
-	NotCriticalDisk    float64 `json:"not_critical_disk,omitempty"`
-	KeepSuperWritable  bool  `json:"keep_super_writable,omitempty"`
-	OfflineEnableLagMs int64 `json:"offline_enable_lag_ms,omitempty"`
-	OfflineDisableLagMs int64 `json:"offline_disable_lag_ms,omitempty"`
-	OfflineMaxPct      int   `json:"offline_max_pct,omitempty"`
-	OfflineAZSep       string `json:"offline_az_sep,omitempty"`
-	OfflineEnableIntervalMs int64 `json:"offline_enable_interval_ms,omitempty"`
-	StreamFromReasonableLagMs int64 `json:"stream_from_reasonable_lag_ms,omitempty"`
-	PriorityChoiceMaxLagMs int64 `json:"priority_choice_max_lag_ms,omitempty"`
-	OptHighMs          int64 `json:"opt_high_ms,omitempty"`
-	OptLowMs           int64 `json:"opt_low_ms,omitempty"`
-	ReplConvergenceTimeoutMs int64 `json:"repl_convergence_timeout_ms,omitempty"`
-	ReplMon            bool  `json:"repl_mon,omitempty"`
-	ManagerElectionDelayMs int64 `json:"manager_election_delay_ms,omitempty"`
-	ManagerLockAcquireDelayMs int64 `json:"manager_lock_acquire_delay_ms,omitempty"`
-	ResetupHostLagMs   int64 `json:"resetup_host_lag_ms,omitempty"`
-	SameZKIdentity     bool  `json:"same_zk_identity,omitempty"` // C03 sub-family: restart keeps {hostname,pid}
-	LogLevel           string `json:"log_level,omitempty"`
-	CustomLagQuery     bool   `json:"custom_lag_query,omitempty"`
+	TickMs                    int64   `json:"tick_ms"`
+	HealthMs                  int64   `json:"health_ms"`
+	RecoveryMs                int64   `json:"recovery_ms"`
+	SessionTimeoutMs          int64   `json:"session_timeout_ms"`
+	LockHeldTTLMs             int64   `json:"lock_held_ttl_ms"`
+	SemiSync                  bool    `json:"semi_sync"`
+	Async                     bool    `json:"async,omitempty"`
+	AsyncAllowedLagMs         int64   `json:"async_allowed_lag_ms,omitempty"`
+	WaitSlaveCount            int     `json:"wait_slave_count"`
+	Failover                  bool    `json:"failover"`
+	FailoverDelayMs           int64   `json:"failover_delay_ms"`
+	FailoverCooldownMs        int64   `json:"failover_cooldown_ms"`
+	InactivationDelayMs       int64   `json:"inactivation_delay_ms"`
+	MasterFirstSSOrder        bool    `json:"master_first_ss_order"`
+	ForceSwitchover           bool    `json:"force_switchover,omitempty"`
+	ManagerSwitchover         bool    `json:"manager_switchover,omitempty"`
+	ResetupCrashedHosts       bool    `json:"resetup_crashed_hosts,omitempty"`
+	DBTimeoutMs               int64   `json:"db_timeout_ms"`
+	DBLostCheckTimeoutMs      int64   `json:"db_lost_check_timeout_ms"`
+	DBSetRoTimeoutMs          int64   `json:"db_set_ro_timeout_ms"`
+	DBSetRoForceTimeoutMs     int64   `json:"db_set_ro_force_timeout_ms"`
+	SwitchoverTimeoutMs       int64   `json:"switchover_timeout_ms"`
+	SwitchoverMaxAttempts     int     `json:"switchover_max_attempts"`
+	SlaveCatchUpTimeoutMs     int64   `json:"slave_catch_up_timeout_ms"`
+	WaitReplStartMs           int64   `json:"wait_repl_start_ms"`
+	DisableSetROOnLost        bool    `json:"disable_set_ro_on_lost,omitempty"`
+	DisableSSOnMaint          bool    `json:"disable_ss_on_maint"`
+	AggressiveRepair          bool    `json:"aggressive_repair,omitempty"`
+	RepairCooldownMs          int64   `json:"repair_cooldown_ms"`
+	RepairMaxAttempts         int     `json:"repair_max_attempts"`
+	SemiSyncEnableLag         int64   `json:"semi_sync_enable_lag"`
+	CriticalDisk              float64 `json:"critical_disk,omitempty"`
+	NotCriticalDisk           float64 `json:"not_critical_disk,omitempty"`
+	KeepSuperWritable         bool    `json:"keep_super_writable,omitempty"`
+	OfflineEnableLagMs        int64   `json:"offline_enable_lag_ms,omitempty"`
+	OfflineDisableLagMs       int64   `json:"offline_disable_lag_ms,omitempty"`
+	OfflineMaxPct             int     `json:"offline_max_pct,omitempty"`
+	OfflineAZSep              string  `json:"offline_az_sep,omitempty"`
+	OfflineEnableIntervalMs   int64   `json:"offline_enable_interval_ms,omitempty"`
+	StreamFromReasonableLagMs int64   `json:"stream_from_reasonable_lag_ms,omitempty"`
+	PriorityChoiceMaxLagMs    int64   `json:"priority_choice_max_lag_ms,omitempty"`
+	OptHighMs                 int64   `json:"opt_high_ms,omitempty"`
+	OptLowMs                  int64   `json:"opt_low_ms,omitempty"`
+	ReplConvergenceTimeoutMs  int64   `json:"repl_convergence_timeout_ms,omitempty"`
+	ReplMon                   bool    `json:"repl_mon,omitempty"`
+	ManagerElectionDelayMs    int64   `json:"manager_election_delay_ms,omitempty"`
+	ManagerLockAcquireDelayMs int64   `json:"manager_lock_acquire_delay_ms,omitempty"`
+	ResetupHostLagMs          int64   `json:"resetup_host_lag_ms,omitempty"`
+	SameZKIdentity            bool    `json:"same_zk_identity,omitempty"` // C03 sub-family: restart keeps {hostname,pid}
+	LogLevel                  string  `json:"log_level,omitempty"`
+	CustomLagQuery            bool    `json:"custom_lag_query,omitempty"`
 }
 
 type WorldSpec struct {
@@ -127,28 +127,28 @@ type WorldSpec struct {
 }
 
 type RateSpec struct {
-	FromMs      int64   `json:"from_ms"`
-	ToMs        int64   `json:"to_ms"`
-	SQLErr      float64 `json:"sql_err"`
-	SQLLost     float64 `json:"sql_lost"`
-	SQLHang     float64 `json:"sql_hang"`
-	SQLSlow     float64 `json:"sql_slow"`
-	ZKReset     float64 `json:"zk_reset"`
+	FromMs       int64   `json:"from_ms"`
+	ToMs         int64   `json:"to_ms"`
+	SQLErr       float64 `json:"sql_err"`
+	SQLLost      float64 `json:"sql_lost"`
+	SQLHang      float64 `json:"sql_hang"`
+	SQLSlow      float64 `json:"sql_slow"`
+	ZKReset      float64 `json:"zk_reset"`
 	ZKResetAfter float64 `json:"zk_reset_after"`
-	ZKSlow      float64 `json:"zk_slow"`
-	OnlyMutating bool   `json:"only_mutating,omitempty"`
+	ZKSlow       float64 `json:"zk_slow"`
+	OnlyMutating bool    `json:"only_mutating,omitempty"`
 }
 
 type TLEvent struct {
-	AtMs   int64  `json:"at_ms"`
-	Kind   string `json:"kind"`
-	Host   string `json:"host,omitempty"`
-	Host2  string `json:"host2,omitempty"`
-	Arg    string `json:"arg,omitempty"`
-	Arg2   string `json:"arg2,omitempty"`
-	N      int64  `json:"n,omitempty"`
-	DurMs  int64  `json:"dur_ms,omitempty"`
-	Fault  bool   `json:"fault,omitempty"` // counts as an injected fault (for HealAt bookkeeping)
+	AtMs  int64  `json:"at_ms"`
+	Kind  string `json:"kind"`
+	Host  string `json:"host,omitempty"`
+	Host2 string `json:"host2,omitempty"`
+	Arg   string `json:"arg,omitempty"`
+	Arg2  string `json:"arg2,omitempty"`
+	N     int64  `json:"n,omitempty"`
+	DurMs int64  `json:"dur_ms,omitempty"`
+	Fault bool   `json:"fault,omitempty"` // counts as an injected fault (for HealAt bookkeeping)
 }
 
 // StmtFail: every statement with this prefix arriving at Host in [FromMs,ToMs) fails before
@@ -164,11 +164,11 @@ type StmtFail struct {
 // CrashAt: kill (or cut from ZooKeeper) the incarnation that started a switchover attempt at
 // its N-th external call (SQL statement or ZooKeeper request) after the StartSwitchover write.
 type CrashAt struct {
-	N         int    `json:"n"`
-	Mode      string `json:"mode"` // after | before | zkcut | fail (the call fails instead of a crash)
-	ArmAfterMs int64 `json:"arm_after_ms,omitempty"` // arm at the first Manager iteration beginning at/after this instant instead of at StartSwitchover
-	RestartMs int64  `json:"restart_ms"` // 0 = never restarted (another host takes over)
-	CutMs     int64  `json:"cut_ms,omitempty"`
+	N          int    `json:"n"`
+	Mode       string `json:"mode"`                   // after | before | zkcut | fail (the call fails instead of a crash)
+	ArmAfterMs int64  `json:"arm_after_ms,omitempty"` // arm at the first Manager iteration beginning at/after this instant instead of at StartSwitchover
+	RestartMs  int64  `json:"restart_ms"`             // 0 = never restarted (another host takes over)
+	CutMs      int64  `json:"cut_ms,omitempty"`
 }
 
 // ExplicitFault pins the decision for one call identity.
@@ -197,32 +197,32 @@ type Violation struct {
 }
 
 type Stats struct {
-	SimSeconds  float64        `json:"sim_seconds"`
-	Steps       int64          `json:"steps"`
-	SQLCalls    int64          `json:"sql_calls"`
-	ZKRequests  int64          `json:"zk_requests"`
-	Iterations  int64          `json:"iterations"`
-	Faults      map[string]int `json:"faults_fired"`
-	Probes      map[string]int `json:"probes"`
-	States      []string       `json:"states,omitempty"`
-	Transitions []string       `json:"transitions,omitempty"`
-	Interleavings []string     `json:"interleavings,omitempty"`
-	Unknown     map[string]int `json:"unknown_statements,omitempty"`
-	Goroutines  []int          `json:"goroutines,omitempty"`
-	OpenConns   []int          `json:"open_conns,omitempty"`
+	SimSeconds    float64        `json:"sim_seconds"`
+	Steps         int64          `json:"steps"`
+	SQLCalls      int64          `json:"sql_calls"`
+	ZKRequests    int64          `json:"zk_requests"`
+	Iterations    int64          `json:"iterations"`
+	Faults        map[string]int `json:"faults_fired"`
+	Probes        map[string]int `json:"probes"`
+	States        []string       `json:"states,omitempty"`
+	Transitions   []string       `json:"transitions,omitempty"`
+	Interleavings []string       `json:"interleavings,omitempty"`
+	Unknown       map[string]int `json:"unknown_statements,omitempty"`
+	Goroutines    []int          `json:"goroutines,omitempty"`
+	OpenConns     []int          `json:"open_conns,omitempty"`
 }
 
 type Result struct {
-	Spec       *Spec       `json:"spec"`
-	Violations []Violation `json:"violations"`
-	Stats      *Stats      `json:"stats"`
-	TraceHash  string      `json:"trace_hash"`
-	TrajHash   string      `json:"traj_hash"`
-	Nontrivial bool        `json:"nontrivial"`
+	Spec       *Spec           `json:"spec"`
+	Violations []Violation     `json:"violations"`
+	Stats      *Stats          `json:"stats"`
+	TraceHash  string          `json:"trace_hash"`
+	TrajHash   string          `json:"traj_hash"`
+	Nontrivial bool            `json:"nontrivial"`
 	Fired      []ExplicitFault `json:"fired,omitempty"`
-	Calls      []string    `json:"calls,omitempty"` // pilot mode: keys of manager calls during a switchover
-	EndState   string      `json:"end_state,omitempty"`
-	Harness    string      `json:"harness_error,omitempty"`
+	Calls      []string        `json:"calls,omitempty"` // pilot mode: keys of manager calls during a switchover
+	EndState   string          `json:"end_state,omitempty"`
+	Harness    string          `json:"harness_error,omitempty"`
 }
 
 func ms(v int64) time.Duration { return time.Duration(v) * time.Millisecond }
